@@ -1,4 +1,4 @@
-//! C10 — cross product: every text parser (17 kinds x 6 backends) is offered valid serialisations of
+//! C10 — cross product: every text parser (19 kinds x 6 backends; header strings written out from the specification, not taken from the library) is offered valid serialisations of
 //! every kind; it may accept only strings carrying exactly its own full prefix.
 use crate::c09::ref_encode;
 use crate::impls::{self, Family};
@@ -11,7 +11,7 @@ use serde_json::json;
 
 pub fn run(ctx: &Ctx) {
     let mut rep = Report::new("C10", &ctx.tier, ctx.seed);
-    rep.rule = "for every ordered pair (producer kind, parser kind) over 17 text kinds x 6 backends (102 x 102), several valid serialisations of the producer (data lengths 0, 32, 33, 49, 64, 96 and random; tokens with and without footer) are offered to the parser; acceptance is allowed only when the two full prefixes are the same string (sibling backends, PKE keys serialised as ordinary keys) and the footer type admits the footer. v1 RSA keys of 2048 / 4096 bits and of ten near-miss sizes offered as each of the four k1 key kinds; non-trivial = producer and parser differ; distinct = distinct (producer, parser, data-length class)".into();
+    rep.rule = "for every ordered pair (producer kind, parser kind) over 19 text kinds x 6 backends (114 x 114; the header strings are the specification's, written out in the harness), several valid serialisations of the producer (data lengths 0, 32, 33, 49, 64, 96 and random; tokens with and without footer) are offered to the parser; acceptance is allowed only when the two full prefixes are the same string (sibling backends, PKE keys serialised as ordinary keys) and the footer type admits the footer. v1 RSA keys of 2048 / 4096 bits and of ten near-miss sizes offered as each of the four k1 key kinds; non-trivial = producer and parser differ; distinct = distinct (producer, parser, data-length class)".into();
     let types = impls::text_types();
     let mut model = Model::spawn(&ctx.model);
     let mut g = SplitMix64::new(ctx.seed ^ 0xC10);
